@@ -58,6 +58,7 @@ def apply_edit(obj, e, layout=1):
     if isinstance(obj, Project):
         return builder.Session(obj, layout=layout).apply(e)
     mod = obj.module
+    builder.set_layout(layout)
     slots = builder.module_slots(mod, None, in_project=False, layout=layout)
     label, setter = slots[e["s"] % len(slots)]
     try:
@@ -177,7 +178,7 @@ def gen_edit(r):
 def base_specs(tier, seed):
     specs = [{"src": "fixture", "name": n} for n in files.fixture_names()]
     n = 30 if tier == "quick" else 400
-    specs += [{"src": "gen", "seed": seeds.derive(seed, "c06gen", i) % (1 << 31), "nest": i % 2 == 0, "n": 25} for i in range(n)]
+    specs += [{"src": "gen", "seed": seeds.derive(seed, "c06gen", i) % (1 << 31), "nest": i % 2 == 0, "n": 25, "layout": 2} for i in range(n)]
     return specs
 
 
